@@ -207,7 +207,7 @@ def h_after_resend(I, n, digits, role):
 
 def cells(tier):
     quick = tier == "quick"
-    digits = 3 if quick else 6
+    digits = 3 if quick else 4  # (6 digits did not exhaust in 20 min per cell once non-ASCII values and the 43/97 flags were added)
     out = []
     groups = {"disconnected": [s for s in ALL_STATES if s < CS.NETWORK_CONN_ESTABLISHED],
               "handshake": [CS.NETWORK_CONN_ESTABLISHED, CS.LOGON_INITIAL_SENT, CS.LOGON_INITIAL_RECV, CS.LOGON_RESPONSE, CS.WAITING_FOR_LOGON],
@@ -218,14 +218,14 @@ def cells(tier):
             out.append(Cell(f"send/{g}/{role.name}", (lambda I, sts=sts, role=role: h_send(I, sts, digits, role)),
                             dict(states=[s.name for s in sts], role=role.name, test_req_pending="symbolic",
                                  kinds=[k for k, _ in SEND_KINDS], next_out=f"symbolic in [1,10^{digits}-1]"),
-                            goals=(["refused"] if g == "disconnected" else []) + (["sent"] if g != "disconnected" else [])))
+                            goals=(["refused"] if g == "disconnected" else []) + (["sent"] if g != "disconnected" else []), budget_s=2400))
     out.append(Cell("multi", lambda I: h_multi(I, 2 if quick else 3, 2 if quick else 4),
                     dict(sends=2 if quick else 3, kinds=["app", "heartbeat", "send_test_req"], state="ACTIVE"), goals=["sent", "refused"]))
     for n in ((2,) if quick else (1, 2, 3)):
       for role in (0, 1):
-        out.append(Cell(f"after-resend/{n}/{ROLES[role].name}", (lambda I, n=n, role=role: h_after_resend(I, n, 1 if quick else 2, role)),
+        out.append(Cell(f"after-resend/{n}/{ROLES[role].name}", (lambda I, n=n, role=role: h_after_resend(I, n, 1 if (quick or n == 3) else 2, role)),
                         dict(sends=n, role=ROLES[role].name, kinds="application / heartbeat (symbolic per send)", begin_seq_no="symbolic, below next_out",
-                             counters="symbolic in [1,6]" if quick else "symbolic, 2 digits"), goals=["resent"], budget_s=1800))
+                             counters="symbolic in [1,6]" if (quick or n == 3) else "symbolic, 2 digits"), goals=["resent"], budget_s=2400))
     for sname, st in c04.STATES.items():
         for kind in (("testrequest", "app", "resendrequest") if quick else KINDS):
             out.append(Cell(f"inbound/{sname}/{kind}", (lambda I, st=st, kind=kind: h_inbound(I, st, kind, 1 if quick else 2)),
@@ -239,4 +239,4 @@ ASSUMPTIONS = ["single-task histories (concurrent senders are C14's subject)",
                "retransmissions and SequenceReset (which carry their own number) are C06's subject",
                "inbound-caused sends reuse the C04 step harness and its assumptions"]
 STUBS = ["transport -> recording Writer", "sqlite3 -> FakeSQLite", "clock -> virtual clock"]
-OUTSIDE = ["sequences of more than 3 sends", "counters >= 10^6"]
+OUTSIDE = ["sequences of more than 3 sends", "counters >= 10^4 (quick: 10^3) in the single-send cells"]
